@@ -682,6 +682,8 @@ def deferred(w, handle, scale):
     sc = max(float(np.linalg.norm(e.shadow)), scale, 1e-300)
     for g, what in ((g1, "canonicalise"), (g2, "lossless compress")):
         err = float(np.linalg.norm(g - e.shadow))
+        if err > TOL * sc:
+            sc = max(sc, tree_rep_magnitude(e.obj, "ttns", w))     # cancelling representations: rounding relative to the stored numbers
         w.stats.ratio("C11.deferred.dense", err, TOL * sc)
         if err > TOL * sc:
             raise V({"C11"}, "C11.deferred.dense", f"result of {opname} changed under subsequent {what}: {err:.3e} (scale {sc:.3e})", sig=f"C11.deferred.dense:{opname}")
